@@ -7,8 +7,7 @@
        A[f, :][:, p]                 D_f * A * D_p          (a block, embedded in the full-size ring)
        x = zeros; x[p] = xp          Xp  with  D_p * Xp = Xp   (the prescribed values, embedded)
        b = zeros; b[f] = bf          Bf  with  D_f * Bf = Bf
-       M * v, M @ v                  product (scipy sparse `*` is the matrix product)
-       M.T                           tr M
+       M @ v                         product
      the inner LinSolve module (class detection + auto_determine_solver + optional LDAWrapper + solver.solve) is a
      solver for the block system, i.e. a function `solve_ff` with the C05/C06 contract on the f-corner
      (ff_solver_ok). *)
@@ -44,10 +43,11 @@ Variables A Bf Xp : M.
 
 Definition soe_Aff := Df * A * Df.
 Definition soe_Afp := Df * A * Dp.
+Definition soe_Apf := Dp * A * Df.
 Definition soe_App := Dp * A * Dp.
 Definition soe_xf : M := solve_ff (Bf - soe_Afp * Xp).
 Definition soe_x : M := Xp + soe_xf.
-Definition soe_b : M := Bf + (tr soe_Afp * soe_xf + soe_App * Xp).
+Definition soe_b : M := Bf + (soe_Apf * soe_xf + soe_App * Xp).
 
 (* contract of the inner solve on the f-corner: the answer lives on f and solves the block system *)
 Definition ff_solver_ok : Prop :=
